@@ -218,6 +218,7 @@ type World struct {
 	rec        *recorder
 	skew       time.Duration
 	msgSerial  int
+	forkSerial int
 	// KnownSeen counts violations that match recorded open findings
 	KnownSeen map[string]int
 	// HarnessErrors are defects of the simulator itself (never verdicts)
